@@ -257,8 +257,9 @@ def cgInitPlan : Plan :=
 /-- the first half of the loop body of `cg` (up to the `break` test);
 inputs `[x, rk_old, pk, rk_norm_sq_old, lambd]`; outputs `[Bpk(unused), x, rk_new, rk_norm_sq_new]` -/
 def cgHeadNodes : List Node := [
-  ⟨.param 2, []⟩, ⟨.expand, [0]⟩, ⟨.fwd, [1]⟩, ⟨.mask, [2]⟩, ⟨.bwd, [3]⟩, ⟨.reduce, [4]⟩,
-  ⟨.param 4, []⟩, ⟨.mul, [6, 0]⟩, ⟨.add, [5, 7]⟩,                          -- 8  Bpk
+  ⟨.param 2, []⟩, ⟨.param 4, []⟩,                                          -- 0 pk, 1 lambd
+  ⟨.expand, [0]⟩, ⟨.fwd, [2]⟩, ⟨.mask, [3]⟩, ⟨.bwd, [4]⟩, ⟨.reduce, [5]⟩,
+  ⟨.mul, [1, 0]⟩, ⟨.add, [6, 7]⟩,                                          -- 8  Bpk
   ⟨.param 3, []⟩, ⟨.param 1, []⟩, ⟨.dot, [10, 8]⟩, ⟨.cdiv, [9, 11]⟩,       -- 12 ak
   ⟨.param 0, []⟩, ⟨.mul, [12, 0]⟩, ⟨.add, [13, 14]⟩,                       -- 15 x
   ⟨.mul, [12, 8]⟩, ⟨.sub, [10, 16]⟩,                                       -- 17 rk_new
